@@ -477,14 +477,22 @@ func ruleC07Deleg(e *Env) {
 				e.S.Ok(rule, site, "Scan(time.Time)", "sets the receiver via FromTime(t), returns nil", e.Pos(scan))
 			}
 		}
-		got, err := eval(scan, pred.Ptr{Cell: recv}, pred.Iface{Dyn: types.Typ[types.String], V: pred.Sym{Name: "s"}})
-		switch {
-		case err != nil:
-			e.S.Unk(rule, site, "Scan(other)", err.Error(), e.Pos(scan))
-		case !wrapsSentinel(got, "*date.ErrInvalidType") || len(log) != 0:
-			e.S.Bad(rule, site, "Scan(other)", fmt.Sprintf("for a non-time source Scan returns %v after %v; documented: error wrapping ErrInvalidType, receiver untouched", got, log), e.Pos(scan), "")
-		default:
-			e.S.Ok(rule, site, "Scan(other)", "returns an error wrapping ErrInvalidType without touching the receiver", e.Pos(scan))
+		// every other dynamic type a database driver hands over (database/sql/driver.Value): text as string or as
+		// bytes, the numbers, bool
+		for _, o := range []struct {
+			name string
+			t    types.Type
+		}{{"Scan(other)", types.Typ[types.String]}, {"Scan([]byte)", types.NewSlice(types.Typ[types.Byte])}, {"Scan(int64)", types.Typ[types.Int64]}, {"Scan(float64)", types.Typ[types.Float64]}, {"Scan(bool)", types.Typ[types.Bool]}} {
+			log = nil
+			got, err := eval(scan, pred.Ptr{Cell: recv}, pred.Iface{Dyn: o.t, V: pred.Sym{Name: "s"}})
+			switch {
+			case err != nil:
+				e.S.Unk(rule, site, o.name, err.Error(), e.Pos(scan))
+			case !wrapsSentinel(got, "*date.ErrInvalidType") || len(log) != 0:
+				e.S.Bad(rule, site, o.name, fmt.Sprintf("for a non-time source (%s) Scan returns %v after %v; documented: error wrapping ErrInvalidType, receiver untouched", o.t, got, log), e.Pos(scan), "")
+			default:
+				e.S.Ok(rule, site, o.name, "returns an error wrapping ErrInvalidType without touching the receiver", e.Pos(scan))
+			}
 		}
 	}
 	if c07Only != "" {
